@@ -27,6 +27,12 @@ import (
 func TestC09(t *testing.T) {
 	rec := mon.Open("C09")
 	defer rec.Finish(t)
+	if only := os.Getenv("VERIF_CASE"); only != "" {
+		var c int
+		fmt.Sscan(only, &c)
+		runTopology(rec, c)
+		return
+	}
 	n := rec.N(10, 150)
 	for c := 0; c < n; c++ {
 		if rec.Mine(c) {
@@ -142,7 +148,20 @@ func runTopology(rec *mon.Recorder, c int) {
 			}
 		}
 		if sym != "" {
-			r := map[string]interface{}{"query": o.q, "k": o.k, "returned": len(o.res)}
+			// classification aid: ask every replica's index directly
+			diag := []string{}
+			for _, n := range cl.Nodes {
+				for pid, i := range pids {
+					if idx := n.PartitionIndex(dsId, pid); idx != nil {
+						direct, derr := hx.Search(idx, o.q, o.k)
+						d := idx.VerifDump()
+						diag = append(diag, fmt.Sprintf("node %d partition %d: Len=%d stored=%d direct search(k=%d) -> %d items err=%v entrypoint=%v", n.Id, i, idx.Len(), len(d.Vertices), o.k, len(direct), derr, d.HasEntrypoint))
+					}
+				}
+			}
+			again, aerr := cl.Nodes[0].Dataset(dsId).Search(ctx, o.q, o.k)
+			diag = append(diag, fmt.Sprintf("same search repeated through node 1 -> %d items err=%v", len(again), aerr))
+			r := map[string]interface{}{"query": o.q, "k": o.k, "returned": len(o.res), "diagnosis": diag}
 			for k, v := range replayBase {
 				r[k] = v
 			}
